@@ -224,7 +224,68 @@ func runCheck(eng *Engine, args []string, tier string, timeout, par int) int {
 			solverObls = append(solverObls, o)
 		}
 	}
+	// reachability covers: an at-call assertion, a postcondition or an invariant-preservation step whose path
+	// condition is unsatisfiable together with the assumptions collected so far is proved vacuously. Some paths are
+	// legitimately dead (split cases, unreachable panics), so a clause fails only when *every* obligation generated
+	// from it sits on an infeasible path. One cover per distinct (function VC, path condition).
+	type coverKey struct {
+		vc *VC
+		pc string
+	}
+	covers := map[coverKey]*Obl{}
+	coverOf := map[*Obl]*Obl{}
+	for _, o := range all {
+		if o.vc == nil || o.Raw != "" || o.Failed != "" || o.Result != "" || o.PC == "" || o.PC == "true" {
+			continue
+		}
+		switch o.Kind {
+		case "at-call", "ensures", "inv-preserved":
+		default:
+			continue
+		}
+		k := coverKey{o.vc, fmt.Sprintf("%s#%d", o.PC, o.Prefix)}
+		c, ok := covers[k]
+		if !ok {
+			c = &Obl{Name: o.Name + "/reachable", Kind: "cover", Func: o.Func, Mode: o.Mode, PC: o.PC, Goal: "true", ExpectSat: true, Prefix: o.Prefix, vc: o.vc,
+				Clause: "the path to this obligation is feasible under the assumptions in force", Timeout: 6}
+			covers[k] = c
+			solverObls = append(solverObls, c)
+		}
+		coverOf[o] = c
+	}
 	dischargeAll(solverObls, outDir, timeout, par)
+	// clauses all of whose obligations are unreachable
+	type clauseKey struct{ fn, clause, kind string }
+	reach := map[clauseKey]bool{}
+	first := map[clauseKey]*Obl{}
+	var ckeys []clauseKey
+	for _, o := range all {
+		c := coverOf[o]
+		if c == nil {
+			continue
+		}
+		k := clauseKey{o.Func, o.Clause, o.Kind}
+		if _, seen := first[k]; !seen {
+			first[k] = o
+			ckeys = append(ckeys, k)
+		}
+		if c.Result != "unsat" {
+			reach[k] = true
+		}
+	}
+	nCover, nCoverUnsat := len(covers), 0
+	for _, c := range covers {
+		if c.Result == "unsat" {
+			nCoverUnsat++
+		}
+	}
+	for _, k := range ckeys {
+		if !reach[k] {
+			o := first[k]
+			all = append(all, &Obl{Name: o.Name + "/vacuous", Kind: "subset", Func: o.Func, Labels: o.Labels, Clause: o.Clause,
+				Failed: "every obligation generated from this clause lies on a path that is infeasible under the assumptions in force (contradictory assumptions or dead code): it would be proved vacuously"})
+		}
+	}
 
 	// 4. verdicts
 	replayDir := filepath.Join(eng.outBase(), "replays", prop)
@@ -329,6 +390,8 @@ func runCheck(eng *Engine, args []string, tier string, timeout, par int) int {
 			"callee_contracts_assumed": ae,
 			"per_obligation":           recs,
 			"vacuity_checks":           nVac,
+			"reachability_covers":      nCover,
+			"reachability_covers_infeasible_paths": nCoverUnsat,
 			"vacuity_inconclusive":     nVacInc,
 			"undecided":                info.Undecided,
 			"bounded":                  info.Bounded,
